@@ -201,4 +201,116 @@ InterOrder(tracks) ==
                       ELSE IF t > Len(tracks) THEN R(c + 1, 1, acc)
                       ELSE R(c, t + 1, IF c <= Len(tracks[t].tbl.co.entries) THEN Append(acc, <<t, c>>) ELSE acc)
   IN R(1, 1, <<>>)
+-----------------------------------------------------------------------------
+(* Fragmented movie.
+   fm = [ mts, tracks : Seq([kind, timescale, trexDur]),
+          frags : Seq(Seq(traf)) ]   one inner sequence per movie fragment,
+   traf = [ track, base, tfhdDur : opt Big, tfdt : Big, tfdtV, durs : opt Seq(Big), sizes : Seq(Nat),
+            cts : opt Seq(raw 32-bit Big), trunV ]
+   base in { "moof"  : default-base-is-moof flag, data_offset relative to the moof start
+             "none"  : no base flag at all (same expectation: the enclosing moof)
+             "start" : explicit base_data_offset = start of the mdat payload, data_offset >= 0
+             "end"   : explicit base_data_offset = end of the mdat, data_offset negative
+             "exact" : explicit base_data_offset = first byte of the run, no data_offset
+             "both"  : like "start" with the default-base-is-moof flag set as well (the explicit
+                       offset takes precedence) }
+   delivery "one": ftyp moov (moof mdat)*;  "split": init = ftyp moov, segment = (moof mdat)*. *)
+
+EmptyStbl(kind) ==
+  Cont(STBL, <<>>,
+       << Cont(STSD, Zeros(4) \o BE(1, 4), <<Leaf(EntryOf(kind))>>),
+          Leaf(EncStts([version |-> 0, flags |-> 0, entries |-> <<>>])),
+          Leaf(EncStsc([version |-> 0, flags |-> 0, entries |-> <<>>])),
+          Leaf(EncStsz([version |-> 0, flags |-> 0, sample_size |-> <<>>, sample_count |-> <<>>, sample_sizes |-> <<>>])),
+          Leaf(EncStco([version |-> 0, flags |-> 0, entries |-> <<>>])) >>)
+
+FragTrakNode(id, tr) ==
+  LET tkhd == [ version |-> 0, flags |-> 3, creation_time |-> <<>>, modification_time |-> <<>>,
+                track_id |-> FromInt(id), duration |-> <<>>, layer |-> 0, alternate_group |-> 0,
+                volume |-> 0, matrix |-> UnityMatrix, width |-> <<>>, height |-> <<>> ]
+      mdhd == [ version |-> 0, flags |-> 0, creation_time |-> <<>>, modification_time |-> <<>>,
+                timescale |-> tr.timescale, duration |-> <<>>, language |-> UND ]
+      hdlr == [ version |-> 0, flags |-> 0, handler_type |-> HandlerOfKind(tr.kind), name |-> <<>> ]
+      dinf == Cont(DINF, <<>>, <<Cont(DREF, Zeros(4) \o BE(1, 4), <<Leaf(EncUrl([version |-> 0, flags |-> 1, location |-> <<>>]))>>)>>)
+  IN Cont(TRAK, <<>>, << Leaf(EncTkhd(tkhd)),
+                        Cont(MDIA, <<>>, << Leaf(EncMdhd(mdhd)), Leaf(EncHdlr(hdlr)),
+                                           Cont(MINF, <<>>, <<dinf, EmptyStbl(tr.kind)>>) >>) >>)
+
+TrexNode(id, dur) == Leaf(EncTrex([version |-> 0, flags |-> 0, track_id |-> FromInt(id),
+                                   default_sample_description_index |-> <<1>>, default_sample_duration |-> dur,
+                                   default_sample_size |-> <<>>, default_sample_flags |-> <<>>]))
+
+\* traf node; p = [base : Big, off : Int] placement of the run (ignored fields per mode)
+TrafNode(tf, p) ==
+  LET explicit == tf.base \in {"start", "end", "exact", "both"}
+      hasOff   == tf.base # "exact"
+      tfhdFlags == (IF explicit THEN TFHD_BASE ELSE 0) + (IF tf.base \in {"moof", "both"} THEN TFHD_BASE_IS_MOOF ELSE 0)
+                   + (IF tf.tfhdDur.some THEN TFHD_DUR ELSE 0)
+      tfhd == [ version |-> 0, flags |-> tfhdFlags, track_id |-> FromInt(tf.track),
+                base_data_offset |-> IF explicit THEN Some(p.base) ELSE None,
+                sample_description_index |-> None, default_sample_duration |-> tf.tfhdDur,
+                default_sample_size |-> None, default_sample_flags |-> None ]
+      trunFlags == (IF hasOff THEN TRUN_OFFSET ELSE 0) + (IF tf.durs.some THEN TRUN_DUR ELSE 0) + TRUN_SIZE
+                   + (IF tf.cts.some THEN TRUN_CTS ELSE 0)
+      n == Len(tf.sizes)
+      trun == [ version |-> tf.trunV, flags |-> trunFlags, sample_count |-> FromInt(n),
+                data_offset |-> IF hasOff THEN Some(p.off) ELSE None, first_sample_flags |-> None,
+                sample_durations |-> IF tf.durs.some THEN tf.durs.v ELSE <<>>,
+                sample_sizes |-> [i \in 1..n |-> FromInt(tf.sizes[i])],
+                sample_flags |-> <<>>, sample_cts |-> IF tf.cts.some THEN tf.cts.v ELSE <<>> ]
+  IN Cont(TRAF, <<>>, << Leaf(EncTfhd(tfhd)),
+                        Leaf(EncTfdt([version |-> tf.tfdtV, flags |-> 0, base_media_decode_time |-> tf.tfdt])),
+                        Leaf(EncTrun(trun)) >>)
+
+\* global sample number of the first sample of traf j in fragment i, for payload patterns
+FragFirstNo(fm, i, j) ==
+  LET t == fm.frags[i][j].track IN
+  1 + IntSum([a \in 1..(i - 1) |-> IntSum([b \in 1..Len(fm.frags[a]) |->
+                    IF fm.frags[a][b].track = t THEN Len(fm.frags[a][b].sizes) ELSE 0])])
+    + IntSum([b \in 1..(j - 1) |-> IF fm.frags[i][b].track = t THEN Len(fm.frags[i][b].sizes) ELSE 0])
+
+RunBytes(fm, i, j) ==
+  LET tf == fm.frags[i][j]  f0 == FragFirstNo(fm, i, j) IN
+  Flat([s \in 1..Len(tf.sizes) |-> SampleBytes(tf.track, f0 + s - 1, tf.sizes[s])])
+
+InitKids(fm) ==
+  LET n == Len(fm.tracks) IN
+  << FtypNode,
+     Cont(MOOV, <<>>, <<Leaf(EncMvhd(MvhdOf(fm.mts, <<>>, n + 1)))>>
+                      \o [t \in 1..n |-> FragTrakNode(t, fm.tracks[t])]
+                      \o <<Cont(MVEX, <<>>, [t \in 1..n |-> TrexNode(t, fm.tracks[t].trexDur)])>>) >>
+
+\* top-level boxes of the fragments for given placements pl[i][j]
+FragKids(fm, pl) ==
+  Flat([i \in 1..Len(fm.frags) |->
+     << Cont(MOOF, <<>>, <<Leaf(EncMfhd([version |-> 0, flags |-> 0, sequence_number |-> FromInt(i)]))>>
+                         \o [j \in 1..Len(fm.frags[i]) |-> TrafNode(fm.frags[i][j], pl[i][j])]),
+        Leaf(Box(MDAT, Flat([j \in 1..Len(fm.frags[i]) |-> RunBytes(fm, i, j)]))) >>])
+
+Root(kids) == [t |-> <<>>, body |-> <<>>, kids |-> kids, leaf |-> FALSE, large |-> FALSE, spare |-> <<>>]
+
+\* placements from a laid-out stream whose top-level boxes are lead ++ (moof mdat)*
+Placements(fm, root, lead) ==
+  [i \in 1..Len(fm.frags) |->
+     LET mi == lead + 2 * i - 1                     \* index of moof i
+         moofStart == TopOff(root, mi)
+         payload   == TopOff(root, mi + 1) + HdrLen(root.kids[mi + 1])
+         mdatEnd   == TopOff(root, mi + 1) + NodeSize(root.kids[mi + 1])
+         runStart(j) == payload + IntSum([b \in 1..(j - 1) |-> IntSum(fm.frags[i][b].sizes)])
+     IN [j \in 1..Len(fm.frags[i]) |->
+           CASE fm.frags[i][j].base \in {"moof", "none"} -> [base |-> <<>>, off |-> runStart(j) - moofStart]
+             [] fm.frags[i][j].base \in {"start", "both"} -> [base |-> FromInt(payload), off |-> runStart(j) - payload]
+             [] fm.frags[i][j].base = "end"   -> [base |-> FromInt(mdatEnd), off |-> runStart(j) - mdatEnd]
+             [] fm.frags[i][j].base = "exact" -> [base |-> FromInt(runStart(j)), off |-> 0]]]
+
+ZeroPlacements(fm) == [i \in 1..Len(fm.frags) |-> [j \in 1..Len(fm.frags[i]) |-> [base |-> <<>>, off |-> 0]]]
+
+\* [file, init]: delivery "one" -> file = whole stream, init = <<>>; "split" -> init and segment
+RenderFrag(fm0, delivery, ops) ==
+  Let(fm0, LAMBDA fm :
+  Let(IF delivery = "one" THEN InitKids(fm) ELSE <<>>, LAMBDA lead :
+  Let(ApplyOps(Root(lead \o FragKids(fm, ZeroPlacements(fm))), ops, 1), LAMBDA r0 :
+  Let(Placements(fm, r0, Len(lead)), LAMBDA pl :
+      [ file |-> EncFile(ApplyOps(Root(lead \o FragKids(fm, pl)), ops, 1)),
+        init |-> IF delivery = "one" THEN <<>> ELSE EncFile(Root(InitKids(fm))) ]))))
 =============================================================================
